@@ -94,6 +94,14 @@ func NewClient(url string, key *keys.PrivateKey, proxy *util.Uint160, alphabet f
 	if err != nil {
 		return nil, err
 	}
+	if alphabet == nil {
+		// chain mode: witness scope limited to the NeoFS contracts group like
+		// innerring.New does after (auto)deployment
+		if err = c.InitFSChainScope(); err != nil {
+			c.Close()
+			return nil, err
+		}
+	}
 	if proxy != nil {
 		opts := []client.NotaryOption{client.WithProxyContract(*proxy)}
 		if alphabet != nil { // nil: the live committee of the chain, as in production
